@@ -50,6 +50,9 @@ CHECKS = {
  "C07": ("exploration", "round-trip monitor (text and binary) plus structural-invariant monitor walked after every operation of generated edit histories",
          "Headers built through the public API are serialised as text and binary, parsed into fresh headers and compared (serialisations byte for byte, every exposed tag); random 30-operation edit histories over add/remove/rename/clone/merge/UnmarshalText/NewHeader are executed and after every operation every live header is walked for id==index, unique names and, for merges, owned links with matching name and length.",
          "URIs restricted to http/ftp/file schemes; whole-second dates; errors returned by edits are not judged.", "3 C07"),
+ "C18": ("exploration", "multiset / ordering / provenance monitor over the (record, error) sequence returned by the real Merger; fault injection at record boundaries; child-process isolation",
+         "k sorted inputs with equal/disjoint/overlapping reference lists whose name order differs from header order are merged with the real Merger for all four sort orders and a custom less; the returned sequence is checked for exactly-once delivery (by SAM line), declared order in terms of the merged header, same-input order, re-linked Ref/MateRef, and error-before-EOF when an input fails at record n.",
+         "Inputs are sorted consistently with the merged header order (otherwise no sorted merge exists).", "3 C18"),
 }
 NOT_BUILT = "check not built yet in this session; see DESIGN.md section 3 for the planned monitor"
 
